@@ -272,3 +272,26 @@ def called_and_stopped():
     except Exception as e:  # noqa
         out["exc"] = f"{type(e).__name__}: {e}"
     return out
+
+
+def national_summary_function(correlated, hard):
+    """function-level replay of get_national_summary_estimates: two contests (weights 3 and 5), the first predicted
+    narrowly for the right-hand party with all its bootstrap mass on that side"""
+    from elexmodel.models.BootstrapElectionModel import BootstrapElectionModel
+
+    B = 20
+    m = BootstrapElectionModel({"features": ["baseline_normalized_margin"], "B": B, "agg_model_hard_threshold": hard, "national_summary_correlation": correlated})
+    rng = np.random.default_rng(0)
+    m.aggregate_pred_margin = np.array([[-0.01], [0.2]])
+    noise = rng.normal(0, 0.01, size=(2, B))
+    m.divided_error_B_1 = noise + np.array([[-0.05], [0.0]])
+    m.divided_error_B_2 = noise * 0.5
+    m.called_contests = np.array([[-1], [-1]])
+    m.stop_model_call = np.array([[False], [False]])
+    out = {"exc": None}
+    try:
+        r = m.get_national_summary_estimates({"A": 3, "B": 5}, 0, 0.9)["margin"]
+        out.update(pred=float(r[0]), lower=float(r[1]), upper=float(r[2]))
+    except Exception as e:  # noqa
+        out["exc"] = f"{type(e).__name__}: {e}"
+    return out
